@@ -342,6 +342,69 @@ VFSelSem(nm, rec, k) ==
 
 IsFSel(nm) == nm \in {"v_min_f32", "v_max_f32", "v_min3_f32", "v_max3_f32", "v_med3_f32"}
 
+\* ------------------------------------------------------------ float arithmetic / conversions
+FMod64(w, i, rec) == LET x == IF Bit(<<rec.abs>>, i) = 1 THEN FAbsW(Fmt64, w) ELSE w
+                     IN IF Bit(<<rec.neg>>, i) = 1 THEN FNegW(Fmt64, x) ELSE x
+\* binary32 denormals are flushed or kept depending on MODE.FP_DENORM, which the simulator does not
+\* model: lanes whose inputs or exact result are binary32 denormals are not constrained (skip).
+FR32(r, ins) == [d |-> r.w, cc |-> 0, nan |-> r.nan,
+                 skip |-> (\E x \in ins : F32IsDen(x)) \/ (~r.nan /\ F32IsDen(r.w))]
+FR64(r) == [d |-> r.w, cc |-> 0, nan64 |-> r.nan]
+FRInt(w) == [d |-> w, cc |-> 0]
+
+F32Names == {"v_add_f32", "v_sub_f32", "v_subrev_f32", "v_mul_f32", "v_mul_legacy_f32", "v_mac_f32", "v_madak_f32",
+  "v_madmk_f32", "v_mad_f32", "v_fma_f32", "v_fmac_f32", "v_fmamk_f32", "v_fmaak_f32"}
+F64Names == {"v_add_f64", "v_mul_f64", "v_fma_f64"}
+CvtNames == {"v_cvt_f32_i32", "v_cvt_f32_u32", "v_cvt_f64_i32", "v_cvt_f64_u32", "v_cvt_f32_ubyte0", "v_cvt_u32_f32",
+  "v_cvt_i32_f32", "v_cvt_f32_f64", "v_cvt_f64_f32", "v_cvt_f16_f32", "v_trunc_f32", "v_rndne_f32"}
+
+VFloatSem(nm, rec, k) ==
+  LET st == rec.pre
+      v3 == rec.f = "VOP3a"
+      m(i, w) == IF v3 THEN FMod32(w, i, rec) ELSE w
+      M(i, w) == IF v3 THEN FMod64(w, i, rec) ELSE w
+      a  == m(0, V32(rec.s0, st, k))
+      b  == m(1, V32(rec.s1, st, k))
+      c  == m(2, V32(rec.s2, st, k))
+      dold == SubSeq(rec.d.pre[k], 1, 2)
+      A  == M(0, V64(rec.s0, st, k))
+      BB == M(1, V64(rec.s1, st, k))
+      CC == M(2, V64(rec.s2, st, k))
+      F  == Fmt32
+  IN CASE nm = "v_add_f32"    -> FR32(FAdd(F, a, b), {a, b})
+       [] nm = "v_sub_f32"    -> FR32(FSub(F, a, b), {a, b})
+       [] nm = "v_subrev_f32" -> FR32(FSub(F, b, a), {a, b})
+       [] nm = "v_mul_f32"    -> FR32(FMul(F, a, b), {a, b})
+       [] nm = "v_mul_legacy_f32" ->
+            IF (F32IsZero(a) \/ F32IsZero(b)) THEN [d |-> Z32, cc |-> 0, zero |-> TRUE, skip |-> F32IsDen(a) \/ F32IsDen(b)]
+            ELSE FR32(FMul(F, a, b), {a, b})
+       [] nm = "v_mac_f32"    -> LET p == FMul(F, a, b) IN FR32(FMad(F, a, b, dold), {a, b, dold} \cup (IF p.nan THEN {} ELSE {p.w}))
+       [] nm = "v_madak_f32"  -> LET p == FMul(F, a, b) IN FR32(FMad(F, a, b, c), {a, b, c} \cup (IF p.nan THEN {} ELSE {p.w}))
+       [] nm = "v_madmk_f32"  -> LET p == FMul(F, a, c) IN FR32(FMad(F, a, c, b), {a, b, c} \cup (IF p.nan THEN {} ELSE {p.w}))
+       [] nm = "v_mad_f32"    -> LET p == FMul(F, a, b) IN FR32(FMad(F, a, b, c), {a, b, c} \cup (IF p.nan THEN {} ELSE {p.w}))
+       [] nm = "v_fma_f32"    -> FR32(FFma(F, a, b, c), {a, b, c})
+       [] nm = "v_fmac_f32"   -> FR32(FFma(F, a, b, dold), {a, b, dold})
+       [] nm = "v_fmamk_f32"  -> FR32(FFma(F, a, c, b), {a, b, c})
+       [] nm = "v_fmaak_f32"  -> FR32(FFma(F, a, b, c), {a, b, c})
+       [] nm = "v_add_f64"    -> FR64(FAdd(Fmt64, A, BB))
+       [] nm = "v_mul_f64"    -> FR64(FMul(Fmt64, A, BB))
+       [] nm = "v_fma_f64"    -> FR64(FFma(Fmt64, A, BB, CC))
+       [] nm = "v_cvt_f32_i32" -> FRInt(FFromS(F, a))
+       [] nm = "v_cvt_f32_u32" -> FRInt(FFromU(F, a))
+       [] nm = "v_cvt_f64_i32" -> FRInt(FFromS(Fmt64, a))
+       [] nm = "v_cvt_f64_u32" -> FRInt(FFromU(Fmt64, a))
+       [] nm = "v_cvt_f32_ubyte0" -> FRInt(FFromU(F, <<a[1] % 256, 0>>))
+       [] nm = "v_cvt_u32_f32" -> FRInt(FToU32(F, a))
+       [] nm = "v_cvt_i32_f32" -> FRInt(FToI32(F, a))
+       [] nm = "v_cvt_f32_f64" -> FR32(FConv(F, Fmt64, A), {})
+       [] nm = "v_cvt_f64_f32" -> LET r == FConv(Fmt64, F, a) IN [d |-> r.w, cc |-> 0, nan64 |-> r.nan, skip |-> F32IsDen(a)]
+       [] nm = "v_cvt_f16_f32" -> LET r == FConv(Fmt16, F, a)
+                                  IN [d |-> IF r.nan THEN Z32 ELSE <<r.w[1], 0>>, cc |-> 0, nan16 |-> r.nan]
+       [] nm = "v_trunc_f32"   -> FR32(FTruncF(F, a), {a})
+       [] nm = "v_rndne_f32"   -> FR32(FRndneF(F, a), {a})
+
+IsFloatArith(nm) == nm \in F32Names \cup F64Names \cup CvtNames
+
 \* which instructions the specification has an exact reference for (everything else is only
 \* constrained lane-wise, see ISATrace)
 IntNames == {"v_mov_b32", "v_mov_b64", "v_not_b32", "v_bfrev_b32", "v_ffbh_u32", "v_cndmask_b32", "v_mul_i32_i24",
